@@ -58,6 +58,9 @@ using L_F12 = List<D<F, Amp>, D<P, u16>, D<P, Amp>>;
 // starts at an offset that is not a multiple of it
 using L_P14 = List<D<P, u8>, D<P, Str>, D<P, u8>, D<P, u32, 4>>;
 using L_P15 = List<D<P, Odd3>, D<P, Asg>, D<P, u8>, D<P, u32, 4>, D<P, u16>>;
+// trivially copy assignable, not trivially move assignable
+using L_P16 = List<D<P, u32>, D<P, Mva>, D<P, u8>>;
+using L_F13 = List<D<F, Mva>, D<P, Mva>, D<P, u16>>;
 // many parameters: three VaryingSize parameters with three count types; two FixedSize and one VaryingSize parameter with
 // decreasing alignments
 using L_V14 = List<D<P, u8>, D<V, u16>, D<P, u32>, D<V, u8>, D<P, u16>, D<V, f32>>;
